@@ -44,6 +44,8 @@ type MultA struct {
 	Unit UnitA `json:"unit"`
 }
 type UnitsA struct {
+	// Pkg names one of the SDK's package-level unit sets, used by identity: nanos, seconds, bytes, chars, pct
+	Pkg   string  `json:"pkg"`
 	Base  UnitA   `json:"base"`
 	Mults []MultA `json:"mults"`
 }
@@ -81,14 +83,19 @@ func (o OptU) MarshalJSON() ([]byte, error) {
 	return []byte(`{"some":true,"v":` + string(b) + `}`), nil
 }
 func (u UnitsA) MarshalJSON() ([]byte, error) {
+	if u.Pkg != "" {
+		b, _ := json.Marshal(u.Pkg)
+		return []byte(`{"pkg":` + string(b) + `}`), nil
+	}
 	m := u.Mults
 	if m == nil {
 		m = []MultA{}
 	}
 	return json.Marshal(struct {
+		Pkg   string  `json:"pkg"`
 		Base  UnitA   `json:"base"`
 		Mults []MultA `json:"mults"`
-	}{u.Base, m})
+	}{"", u.Base, m})
 }
 
 // Atom is an enum value or a one-of key: a string or an integer.
@@ -268,11 +275,24 @@ func mkDisplayI(o OptD) schema.Display {
 	return mkDisplay(o)
 }
 
+// the package-level unit sets, by identity
+var pkgUnits = map[string]*schema.UnitsDefinition{
+	"nanos":   schema.UnitDurationNanoseconds,
+	"seconds": schema.UnitDurationSeconds,
+	"bytes":   schema.UnitBytes,
+	"chars":   schema.UnitCharacters,
+	"pct":     schema.UnitPercentage,
+}
+var pkgUnitNames = []string{"bytes", "chars", "nanos", "pct", "seconds"}
+
 func mkUnits(o *OptU) *schema.UnitsDefinition {
 	if o == nil || !o.Some {
 		return nil
 	}
 	u := o.V
+	if u.Pkg != "" {
+		return pkgUnits[u.Pkg]
+	}
 	var mults map[int64]*schema.UnitDefinition
 	if len(u.Mults) > 0 {
 		mults = map[int64]*schema.UnitDefinition{}
